@@ -247,6 +247,24 @@ func c14Hash(t *rapid.T, ev *evProp) {
 		violationOrKnown(t, ev, key("complete"), "honest proof rejected: %v %s\n%s", e, pn, ctx)
 		return
 	}
+	// the same Prover value run again (a prover handed to several verifiers, or to a second deniable
+	// round): every run yields a proof of the same true statement that verifies
+	for run := 2; run <= 1+rapid.IntRange(0, 2).Draw(t, "reruns"); run++ {
+		var prfN []byte
+		var errN error
+		if pn := safely(func() { prfN, errN = proof.HashProve(suite, name, prv) }); pn != "" || errN != nil {
+			violationOrKnown(t, ev, key("prove-again"), "run %d of the same Prover fails: %v %s\n%s", run, errN, pn, ctx)
+			return
+		}
+		if e, pn := verify(pred, st.points, name, prfN); e != nil || pn != "" {
+			violationOrKnown(t, ev, key("complete-again"), "the proof from run %d of the same Prover is rejected: %v %s\n%s", run, e, pn, ctx)
+			return
+		}
+	}
+	if e, pn := verify(pred, st.points, name, prf); e != nil || pn != "" {
+		violationOrKnown(t, ev, key("complete"), "the first proof is rejected after the Prover ran again: %v %s\n%s", e, pn, ctx)
+		return
+	}
 	neg := rapid.SampledFrom([]string{"falsify-secret", "bitflip", "bitflip", "truncate", "other-point", "other-base", "drop-term", "reorder-branches", "other-name", "swap-proofs"}).Draw(t, "neg")
 	applies := true
 	reject := func(e error, pn string, what string) {
